@@ -351,13 +351,17 @@ func (m *Manager) onClose(reason Reason, err error) {
 func (m *Manager) Close() {
 	m.debug.Log("Disconnecting")
 
-	m.stateMu.Lock()
-	m.state = clientConnStateDisconnected
-	m.stateMu.Unlock()
-
+	// This comes first. A connection attempt that is completing right now either finds this set
+	// and gives up, or it is through with setting up its connection when the lock is acquired
+	// here (see `connect`). Otherwise, it would go on setting up a connection (and the state)
+	// behind the back of what follows.
 	m.skipReconnectMu.Lock()
 	m.skipReconnect = true
 	m.skipReconnectMu.Unlock()
+
+	m.stateMu.Lock()
+	m.state = clientConnStateDisconnected
+	m.stateMu.Unlock()
 
 	m.onClose(ReasonForcedClose, nil)
 
